@@ -15,6 +15,6 @@ def run(ctx):
     return C.finish(ctx, "proof", cov, [
         "objective and optimum preservation are proved end to end through the whole of compile for the affine fragment (C02_objective_affine, C02_optimum_affine) and, in the "
         "full form of C02_objective_statement, for the arithmetic fragment with abs, min and max (C02_objective_abs, C02_optimum_abs); "
-        "PARTIAL beyond it (logic nodes): the full objective theorem is stated but not proved; proved are the affine objective "
+        "PARTIAL beyond it (reified logic values, witness-based assertions): the full objective theorem is stated but not proved; proved are the affine objective "
         "(coefficients and offset) and the one-sided/exact arm patterns",
         "objective map, offset and direction are part of the structural tie; best-extension objective vs source objective is compared on the implementation at every source-feasible grid point"])
